@@ -12,14 +12,15 @@ CONSTANTS
   F0Neg = FALSE
   MaxSteer = 495
   SlewMax = 200
-  MaxSamples = 2
-  Ghosts = TRUE
+  MaxSamples = 1
+  Ghosts = FALSE
+  Readd = FALSE
   OffPos = {0, 2}
   OffNeg = {}
   LeapVals = {"none"}
   Wides = {FALSE}
-  MaxChan = 3
-  Bound = 4
+  MaxChan = 2
+  Bound = 2
   UsableVals = {TRUE, FALSE}
 INIT GenInit
 NEXT GenNext
